@@ -28,6 +28,8 @@ class Include:
                     out.append({"id": "split/%s/at%d" % (p, k), "k": "split", "p": p, "at": k, "bounded": "%s split at %d" % (p, k)})
             out.append({"id": "nested/%s" % p, "k": "nested", "p": p, "bounded": "%s in 3 nested files" % p})
             out.append({"id": "middle/%s" % p, "k": "middle", "p": p, "bounded": "%s with the middle third included" % p})
+        for shape in ("adjacent", "apart", "nested-twice"):
+            out.append({"id": "same-file-twice/%s" % shape, "k": "twice", "shape": shape, "bounded": "one file included twice (%s)" % shape})
         out.append({"id": "missing-file", "k": "missing"})
         out.append({"id": "cycle/self", "k": "cycle", "shape": "self"})
         out.append({"id": "cycle/two", "k": "cycle", "shape": "two"})
@@ -71,6 +73,31 @@ class Include:
         a, b = n // 3, 2 * n // 3
         main = lines[:a] + ["        INCLUDE mid.asm ; the middle\n"] + lines[b:]
         self._cmp(env, cell, main, {"mid.asm": lines[a:b]}, lines, native, "middle/%s" % cell["p"])
+
+    def k_twice(self, env, cell, native):
+        snippet = ["        LDA #$41\n", "        STA ,X+\n"]
+        shape = cell["shape"]
+        if shape == "adjacent":
+            main = ["        ORG $0E00\n", "SRC     LDX #DST\n", "        INCLUDE put.asm\n", "        INCLUDE put.asm\n", "        RTS\n", "DST     RMB 4\n",
+                    "END1    NOP\n"]
+            fs = {"put.asm": snippet}
+        elif shape == "apart":
+            main = ["        ORG $0E00\n", "SRC     LDX #DST\n", "        INCLUDE put.asm\n", "MID     LDB #2\n", "        INCLUDE put.asm\n", "        BRA SRC\n",
+                    "DST     RMB 4\n", "END1    JMP MID\n"]
+            fs = {"put.asm": snippet}
+        else:
+            main = ["        ORG $0E00\n", "SRC     LDX #DST\n", "        INCLUDE two.asm\n", "        INCLUDE put.asm\n", "DST     RMB 4\n", "END1    JMP SRC\n"]
+            fs = {"put.asm": snippet, "two.asm": ["        INCLUDE put.asm\n", "        NOP\n", "        INCLUDE put.asm\n"]}
+
+        def splice(lines):
+            out = []
+            for l in lines:
+                if "INCLUDE" in l:
+                    out += splice(fs[l.split()[1]])
+                else:
+                    out.append(l)
+            return out
+        self._cmp(env, cell, main, fs, splice(main), native, "same-file-twice/%s" % shape)
 
     def k_missing(self, env, cell, native):
         r = assemble(env, [" NOP\n", " INCLUDE nothere.asm\n"], fs={"other.asm": [" NOP\n"]})
